@@ -897,11 +897,28 @@ namespace
             {
                 array_type za = to_array(m_ga.grid(), z);
                 const auto& e = m_e->erode(za, dt);
+                m_last = &e;
                 return std::vector<double>(e.begin(), e.end());
             }
             else
             {
                 (void) z;
+                (void) dt;
+                throw std::logic_error("raster only");
+            }
+        }
+        std::vector<double> erode_last(double dt) override
+        {
+            if constexpr (kind_of<G>::raster)
+            {
+                if (!m_last)
+                    throw std::logic_error("erode_last before erode");
+                const auto& e = m_e->erode(*m_last, dt);
+                m_last = &e;
+                return std::vector<double>(e.begin(), e.end());
+            }
+            else
+            {
                 (void) dt;
                 throw std::logic_error("raster only");
             }
@@ -950,6 +967,7 @@ namespace
         using E = std::conditional_t<kind_of<G>::raster, fs::diffusion_adi_eroder<grid_type>, empty>;
         GridAdapter& m_ga;
         std::unique_ptr<E> m_e;
+        const array_type* m_last = nullptr;  // the eroder's own result buffer, as returned
     };
     using DiffusionAdapter = DiffusionAdapterT<grid_type>;
 
